@@ -55,11 +55,11 @@ def configs(tier, seed):
         out.append(dict(part='pair', op='sub', x=list(x), y=list(y), route=rng.choice(('operator', 'function')), shape=[], overflow='wrap'))
     # arrays with broadcasting, and expression trees
     small = [(s, n, f) for (s, n, f) in fm if n <= 8]
-    for _ in range(200 if tier == 'quick' else 1500):
+    for _ in range(200 if tier == 'quick' else 6000):
         x, y = rng.choice(small), rng.choice(small)
         op = rng.choice(('add', 'sub', 'mul'))
         out.append(dict(part='pair', op=op, x=list(x), y=list(y), route='operator', shape=rng.choice(([2], [2, 1]))))
-    for _ in range(300 if tier == 'quick' else 3000):
+    for _ in range(300 if tier == 'quick' else 12000):
         depth = 2 if tier == 'quick' else rng.choice((2, 3))
         leaves = [list(rng.choice(small)) for _ in range(4)]
         ops = [rng.choice(('add', 'sub', 'mul')) for _ in range(3)]
